@@ -46,6 +46,15 @@ def load_units():
     #  C07 "the coin root is a function of the coins alone" -- the coin tree also stores the per-address counts, so this holds only while the
     #  counts are a function of the coins, i.e. C20's invariant counts_ok; every clause that states it carries C07 as well (seed C07g: a faucet
     #  marker inserted without counting made two chains with equal coins seal different coins_hash; ./check C07 had not even run unit `apply`).
+    #  A loop invariant `<name>_i` is the running form of the postcondition `<name>` of the same function: it inherits that clause's tags (it is the
+    #  invariant, not the postcondition, that fails first when the loop body is edited: seed C03i).
+    for u in units.values():
+        for f in u.fns():
+            by_id = {c.cid: c for c in f.clauses() if c.kind == "ensures"}
+            for c in f.clauses():
+                stem = c.cid[:-2] if c.cid.endswith("_i") else {"sums": "balanced"}.get(c.cid)
+                if c.kind == "invariant" and stem in by_id:
+                    c.props = tuple(dict.fromkeys(tuple(c.props) + tuple(by_id[stem].props)))
     for u in units.values():
         for f in u.fns():
             for c in f.clauses():
